@@ -499,6 +499,7 @@ def execute_steer(sc):
     u = sc.get('unsert', 0.0) if fn == 'sample' else 0.0
     w0 = W.reshape(n[0], -1).sum(axis=1)
     den0 = float(np.maximum(w0 + u, 0).sum())
+    Wabs_tot = float(Wabs.sum())
     worst = 0.0
     nz = 0
     for s, mi in enumerate(multi):
@@ -517,7 +518,14 @@ def execute_steer(sc):
         truth = (max(w0[mi[0]] + u, 0.0) / den0) * (float(W[mi]) / float(w0[mi[0]])) if fn == 'sample' else float(W[mi]) / tot
         err = abs(prob[s] - truth)
         worst = max(worst, err)
-        if err > 1e-12 + 1e-9 * truth + 1e3 * 2.2e-16 * float(Wabs[mi]) / tot * max(1.0, tot / den0 if fn == 'sample' and den0 > 0 else 1.0):
+        # every marginal along the path (and the normaliser) is a sum with cancellation: relative rounding eps * sum|terms| / |sum|
+        kappa = Wabs_tot / tot
+        for j in range(len(mi)):
+            wj = float(W[mi[:j + 1]].sum())
+            if wj > 0:
+                kappa = max(kappa, float(Wabs[mi[:j + 1]].sum()) / wj)
+        if err > 1e-12 + 1e-9 * truth + 1e3 * 2.2e-16 * kappa * truth \
+                + 1e3 * 2.2e-16 * float(Wabs[mi]) / tot * max(1.0, tot / den0 if fn == 'sample' and den0 > 0 else 1.0):
             V.append(viol('probability', '%s: multi-index %s is drawn with probability %.12e (product of the conditionals) but the tensor defines %.12e '
                           '(entry %.6e of a total of %.6e, shape %s, ranks %s, unsert=%g)'
                           % (fn, list(mi), prob[s], truth, float(W[mi]), tot, n, [G.shape[2] for G in Y[:-1]], u)))
